@@ -359,6 +359,14 @@ def build(rng, P, rep, table_mode=False):
                 h = lambda v, k=0: (v, k)    # noqa: E731
                 add(lambda: x.rx.rx.map(h, k=y.rx), lambda: (lambda xs, k: [h(v, k=k) for v in xs])(x.ev(), y.ev()), f'map({x.desc},k={y.desc})', 'list',
                     'map:kwarg', (x, y))
+        elif k < 0.685:
+            # a method whose argument is an expression: the method is looked up on the receiver before the argument is evaluated
+            x, y = rng.choice(of('str') + of('list')), rng.choice(nodes)
+            if rng.random() < 0.5:
+                add(lambda: x.rx.count(y.rx), lambda: x.ev().count(y.ev()), f'{x.desc}.count({y.desc})', 'num', 'method:rx-arg', (x, y))
+            else:
+                # ... the argument derived from the receiver, so that one bad input breaks both
+                add(lambda: x.rx.count(x.rx + 'a'), lambda: x.ev().count(x.ev() + 'a'), f'{x.desc}.count({x.desc}+a)', 'num', 'method:rx-arg-own', (x,))
         elif k < 0.76:
             x, y, z = rng.choice(of('bool') + of('num')), rng.choice(nodes), rng.choice(nodes)
             if rng.random() < 0.5:
